@@ -19,6 +19,7 @@ type vhFeeder struct {
 	lines   []int // end offsets of complete lines in data
 	lineWise bool
 	errWithData bool
+	chunk    int  // >0: at most this many bytes per Read
 	limit    int  // >0: only data[:limit] has been produced so far; asking for more would block
 	blocked  bool // Read was called although nothing more was available
 }
@@ -47,6 +48,9 @@ func (f *vhFeeder) Read(p []byte) (int, error) {
 	}
 	if f.limit > 0 && end > f.limit {
 		end = f.limit
+	}
+	if f.chunk > 0 && end > f.pos+f.chunk {
+		end = f.pos + f.chunk
 	}
 	n := copy(p, f.data[f.pos:end])
 	f.pos += n
